@@ -744,3 +744,15 @@ add("A11", "keep", API, FBK, _m("            elif callable(key):\n              
 add("A12", "break", API, "BaseGroupBy.cumcount", "return self._grouper.cumcount()", "return pd.Series(self._grouper.cumcount(), index=self._obj.index)", name="A12 cumcount re-aligned by label")
 add("A12", "break", API, "BaseGroupBy.cumcount", "return self._grouper.cumcount()", "counts = self._grouper.cumcount()\n        return pd.Series(counts, index=self._obj.index, name=None)", name="A12 through a local")
 add("A12", "keep", API, "BaseGroupBy.cumcount", "return self._grouper.cumcount()", "return pd.Series(self._grouper.cumcount().to_numpy(), index=self._obj.index)", name="A12 relabelled by position")
+
+# --------------------------------------------------------------------------------------------- P27 / P26b / P2c / P28
+AGR = "GroupBy._apply_gb_reduction"
+add("P27", "break", CORE, AGR, _m("        if common_index is not None:\n            result_index = common_index\n"), _m("        if common_index is not None and (not isinstance(common_index, pd.RangeIndex)):\n            result_index = common_index\n"), name="P27 RangeIndex inputs relabelled from 0")
+add("P27", "break", CORE, AGR, _m("        if common_index is not None:\n            result_index = common_index\n        else:\n            result_index = pd.RangeIndex(len(self))\n"), _m("        result_index = pd.RangeIndex(len(self))\n"), name="P27 transform always relabelled")
+add("P27", "keep", CORE, AGR, _m("        if common_index is not None:\n            result_index = common_index\n        else:\n            result_index = pd.RangeIndex(len(self))\n"), _m("        if common_index is None:\n            result_index = pd.RangeIndex(len(self))\n        else:\n            result_index = common_index\n"), name="P27 test inverted")
+add("P26b", "break", CORE, AGR, "mean_from_sum_count(pd.Series(sums), pd.Series(np.append(n, np.zeros(len(sums) - len(n), dtype=n.dtype)))).to_numpy()", "mean_from_sum_count(sums, np.append(n, np.zeros(len(sums) - len(n), dtype=n.dtype)))", name="P26b bare arrays into mean_from_sum_count")
+add("P26b", "keep", CORE, AGR, "mean_from_sum_count(pd.Series(sums), pd.Series(np.append(n, np.zeros(len(sums) - len(n), dtype=n.dtype)))).to_numpy()", "mean_from_sum_count(pd.Series(sums), pd.Series(np.concatenate([n, np.zeros(len(sums) - len(n), dtype=n.dtype)]))).to_numpy()", name="P26b concatenate instead of append")
+add("P2c", "break", CORE, AGR, "pd.Series(np.append(n, np.zeros(len(sums) - len(n), dtype=n.dtype)))).to_numpy() for sums, n in zip(result_columns, counts)]", "pd.Series(np.append(counts[0], np.zeros(len(sums) - len(counts[0]), dtype=counts[0].dtype)))).to_numpy() for sums in result_columns]", name="P2c first column's counts for every column")
+add("P28", "break", CORE, "GroupBy._apply_rolling_or_cumulative_func", "result_dict[key] = self._convert_arr_to_pandas_series(result, dtype, common_index)", "series = self._convert_arr_to_pandas_series(result, dtype, common_index)\n                result_dict[key] = series.mask(np.asarray(self.group_ikey) < 0)", name="P28 null-key rows masked (int -> float)")
+add("P28", "break", CORE, "GroupBy._apply_rolling_or_cumulative_func", "result_dict[key] = self._convert_arr_to_pandas_series(result, dtype, common_index)", "result_dict[key] = self._convert_arr_to_pandas_series(result, dtype, common_index).where(np.asarray(self.group_ikey) >= 0)", name="P28 where on the conversion result")
+add("P28", "keep", CORE, "GroupBy._apply_rolling_or_cumulative_func", "result_dict[key] = self._convert_arr_to_pandas_series(result, dtype, common_index)", "series = self._convert_arr_to_pandas_series(result, dtype, common_index)\n                result_dict[key] = series", name="P28 through a local")
